@@ -92,6 +92,7 @@ fn main() {
                 "C13" => runner::to_json(&props::c13::Case {
                     program: props::c13::program_from_bytes(&data),
                     leak: false,
+                    cpus: 0,
                 }),
                 "C01" => runner::to_json(&props::c01::case_from_bytes(&data)),
                 _ => String::new(),
